@@ -895,9 +895,7 @@ func (ex *Exec) ensureInit(pkg *ssa.Package) {
 	// obligations raised inside init are dropped (init is concrete library code)
 	ex.obligations = ex.obligations[:saveObl]
 	_ = firstObj
-	for id, v := range st.heap.m {
-		ex.globalInit[id] = v
-	}
+	st.heap.each(func(id int, v Value) { ex.globalInit[id] = v })
 	ex.initDone[pkg] = true
 	ex.initRunning[pkg] = false
 }
